@@ -81,11 +81,16 @@ def run_bfs(spec, res):
         for real, ref, path in frontier:
             for i in range(assoc):
                 c, cf = copy.deepcopy(real), copy.deepcopy(ref)
-                c.access(i)
-                cf.access(i)
-                trans += 1
                 case = {"kind": "path", "policy": policy, "assoc": assoc, "path": path + [i]}
-                if not check_after(c, cf, policy, assoc, i, res, case):
+                try:
+                    c.access(i)
+                    cf.access(i)
+                    trans += 1
+                    ok = check_after(c, cf, policy, assoc, i, res, case)
+                except Exception as e:
+                    res.violation("C10", "unexpected-exception", "%s(%d) path %s raised %r" % (policy, assoc, case["path"][-6:], e), case)
+                    ok = False
+                if not ok:
                     res.transitions += trans
                     res.states += len(seen)
                     return
